@@ -148,8 +148,20 @@ func (dv *Router) processPrefixData(data ndn.Data, router *table.PrefixTableRout
 		return
 	}
 
-	// Update the prefix table
+	// This entry of the router's log has been read
 	router.Known = seqNo.NumberVal()
+
+	// The entry was fetched from the log of this router (the Interest is made
+	// from its name), so it describes the prefixes of this router only. Apply
+	// picks the table by the ExitRouter in the content: an entry that names
+	// another router would rewrite the prefixes held for that one, which are
+	// then no longer what its own log says. Skip such an entry.
+	if ops.ExitRouter == nil || !ops.ExitRouter.Name.Equal(router.Name) {
+		log.Warnf("prefixDataFetch: %s is not about the router it was fetched from, ignoring", dataName)
+		return
+	}
+
+	// Update the prefix table
 	if dv.pfx.Apply(ops) {
 		// Update the local fib if prefix table changed (very expensive)
 		go dv.fibUpdate()
